@@ -259,6 +259,9 @@ def _impl(t):
         cb = ControlBlock.parse(b)
         q = cb.external_pubkey(s)
         return f"{tok_pt(q)} {q.parity} {cb.parity}"
+    if op == "cb_accepts":
+        b = unx(T.next()); s = T.script(); qx = unx(T.next()); T.done()
+        return "1" if accepts(b, s, qx) else REJECT
     if op == "cb_external_obj":
         v, par = int(T.next()), int(T.next())
         p = T.point(); hs = T.bytes_list(); s = T.script(); T.done()
@@ -741,6 +744,7 @@ def run(ctx):
                     bad = bytearray(cbb)
                     bad[pos] ^= delta
                     alt_lines.append(("cb_external:altered", f"cb_external {xb(bad)} {tok_script(leaf[1])}"))
+                    alt_lines.append(("cb_accepts:altered", f"cb_accepts {xb(bad)} {tok_script(leaf[1])} {xb(qx)}"))
         for pos in range(len(raw)):
             delta = rng.choice([1, 0x80, rng.randrange(1, 256)])
             preds.append(("script_alter", {"cb": xb(cbb), "qx": xb(qx), "raw": xb(raw), "pos": pos, "delta": delta,
@@ -755,6 +759,8 @@ def run(ctx):
         alt_lines.append(("cb_external:extended", f"cb_external {xb(cbb + bytes(32))} {tok_script(leaf[1])}"))
         alt_lines.append(("cb_external:original", f"cb_external {xb(cbb)} {tok_script(leaf[1])}"))
         alt_lines.append(("cb_root", f"cb_root {xb(cbb)} {tok_script(leaf[1])}"))
+        alt_lines.append(("cb_accepts:original", f"cb_accepts {xb(cbb)} {tok_script(leaf[1])} {xb(qx)}"))
+        alt_lines.append(("cb_accepts:otherkey", f"cb_accepts {xb(cbb)} {tok_script(leaf[1])} {xb(rbytes(rng, 32))}"))
     model = batch_parallel(drv, [l for _, l in alt_lines], workers=ctx.workers)
     impl = pmap(impl_line, [l for _, l in alt_lines], workers=ctx.workers)
     for (kind, line), m, im in zip(alt_lines, model, impl):
